@@ -236,6 +236,15 @@ def escape_spelling(tok: bytes, bads: list, enc: str) -> bytes:
         return tok
 
 
+def _chardet_whole_file(data: bytes) -> str:
+    try:
+        import chardet
+
+        return (chardet.detect(data).get("encoding") or "utf-8").lower()
+    except Exception:
+        return "?"
+
+
 def judge_file(rel: str, before: bytes, after: bytes, m: dict, enc: str, file_enc: str):
     """Protected tokens (comment text, string-literal content) must survive byte-for-byte.
 
@@ -269,6 +278,20 @@ def judge_file(rel: str, before: bytes, after: bytes, m: dict, enc: str, file_en
         sig = "C11:protected-text-changed"
         if has_bad and escape_spelling(tok, bads, file_enc) in after:
             sig = "F1:undecodable-bytes-rewritten-as-backslashreplace-text"
+        else:
+            # the same defect reached through autodetection: the encoding sqlfluff DETECTED (e.g. utf-8 for
+            # a cp1252 file) cannot decode bytes of this token, and exactly their backslashreplace spelling
+            # in that encoding is what the file holds now
+            try:
+                tok.decode("utf-8" if enc.lower().replace("_", "-") in ("utf-8-sig", "utf8") else enc)
+                undecodable = False
+            except (UnicodeDecodeError, LookupError):
+                undecodable = True
+            if undecodable and escape_spelling(tok, bads, enc) in after and _chardet_whole_file(before) == enc.lower():
+                # ... and that encoding is chardet's own answer for the WHOLE file (what the unchanged
+                # get_encoding asks for): the library's misdetection, not a deviation of sqlfluff's
+                # detection logic - any other detected encoding stays an unlisted violation
+                sig = "F8:autodetected-encoding-cannot-decode-the-file-escapes-written-back"
         k = 0
         msg = "%s (detected %s): comment/string text %r is not present in the fixed file any more (file now: %r...)" % (
             rel, enc, tok, after[:120])
